@@ -323,6 +323,11 @@ func c07PropFilters(twoMatches bool) []carddav.PropFilter {
 	tms := c07TextMatches()
 	for _, n := range []string{"FN", "EMAIL", "X-NONE"} {
 		out = append(out, carddav.PropFilter{Name: n, IsNotDefined: true})
+		// is-not-defined decides by absence whatever text-matches stand next to it
+		for ti := 0; ti < len(tms); ti += 9 {
+			out = append(out, carddav.PropFilter{Name: n, IsNotDefined: true, TextMatches: []carddav.TextMatch{tms[ti]}},
+				carddav.PropFilter{Name: n, IsNotDefined: true, Test: carddav.FilterAllOf, TextMatches: []carddav.TextMatch{tms[ti], tms[(ti+1)%len(tms)]}})
+		}
 		for _, t := range c07Tests {
 			out = append(out, carddav.PropFilter{Name: n, Test: t})
 			for _, a := range tms {
